@@ -156,6 +156,9 @@ class LineTracer:
         self._ident = threading.get_ident()
         _MON.register_callback(TOOL_ID, _MON.events.LINE, self._on_line)
         _MON.set_events(TOOL_ID, _MON.events.LINE)
+        # locations for which an earlier run's callback returned DISABLE stay disabled across
+        # set_events(0)/set_events(LINE): what this run sees must not depend on what ran before
+        _MON.restart_events()
         return self
 
     def __exit__(self, *exc: Any) -> None:
@@ -716,6 +719,9 @@ class Scheduler:
         _claim_tool()
         _MON.register_callback(TOOL_ID, _MON.events.LINE, self._on_line)
         _MON.set_events(TOOL_ID, _MON.events.LINE)
+        # see LineTracer.__enter__: DISABLE decisions of earlier runs (which may have had another
+        # frame filter, e.g. no trace_lark) must not carry over
+        _MON.restart_events()
         CURRENT[0] = self
         try:
             self._run(tids, timeout)
